@@ -1,10 +1,135 @@
-(* C18: bitset, array, PRNGs and sort agree with their standard references. *)
+(* C18: bitset, array, PRNGs and sort agree with their standard references.
+   Statements only; the proofs are in coq/Bits/*.v. *)
 From Coq Require Import List NArith Arith Bool Permutation.
-From FV Require Import Bits.SortModel Bits.SortProofs.
+From FV Require Import Bits.BitsetModel Bits.BitsetBase Bits.BitsetProofs Bits.BitsetShift Bits.BitsetQueries
+  Bits.BitsetCount Bits.BitsetTop Bits.PrngModel Bits.PcgProofs Bits.MtProofs Bits.SortModel Bits.SortProofs.
 Import ListNotations.
 
-(* insertion_sort: for comp asymmetric and transitive the result is a permutation of the input in
-   which no earlier element is comp-below a later one. *)
+(* ================================================================================================
+   bitset<N>, FOR EVERY N >= 1.
+     bit ws i        = bit (i mod 64) of word (i / 64)                       (BitsetProofs.bit)
+     wf n ws         = ceil(n/64) words, each < 2^64, no bit at or beyond n  (BitsetProofs.wf)
+     spec_op / spec_query / count_spec = the std::bitset<N> definitions on bit functions
+                       (BitsetTop.spec_op: e.g. BShl p => fun i => (p <=? i) && f (i - p),
+                                                       BShr p => fun i => (i + p <? n) && f (i + p))
+     valid_op / valid_query = positions below N, other operands well-formed bitsets
+   ================================================================================================ *)
+Local Open Scope N_scope.
+
+Theorem C18_bitset_refines_bits : forall n : N, 1 <= n ->
+  (* constructors *)
+  (wf n (ctor_default n) /\ forall i, bit (ctor_default n) i = false) /\
+  (forall v, v < 2 ^ 64 ->
+     exists ws, ctor_val n v = Ok ws /\ wf n ws /\ forall i, i < n -> bit ws i = N.testbit v i) /\
+  (* every mutating operation, incl. the proxy reference and shifts by ANY amount *)
+  (forall ws o, wf n ws -> valid_op n o ->
+     exists ws', apply_op n ws o = Ok ws' /\ forall i, i < n -> bit ws' i = spec_op n o (bit ws) i) /\
+  (* shifts by p >= N give the empty set *)
+  (forall ws p, wf n ws -> n <= p ->
+     exists wl wr, apply_op n ws (BShl p) = Ok wl /\ apply_op n ws (BShr p) = Ok wr /\
+                   forall i, i < n -> bit wl i = false /\ bit wr i = false) /\
+  (* test, bool(ref), ~ref, any, all, none, == *)
+  (forall ws q, wf n ws -> valid_query n q -> query n ws q = Ok (spec_query n q (bit ws))) /\
+  (* count = number of set bits below N *)
+  (forall ws, wf n ws -> count ws = Ok (count_spec n (bit ws))).
+Proof. exact bitset_refines_bits_all. Qed.
+Print Assumptions C18_bitset_refines_bits.
+
+(* bits >= N of the last word are 0 (and every word is a uint64_t, and the word count is right) for
+   every bitset that can be built from the constructors with the operations, any shift amounts *)
+Theorem C18_bitset_padding_zero : forall n : N, 1 <= n -> forall ws, reachable n ws ->
+  length ws = nwords n /\ Forall (fun w => w < 2 ^ 64) ws /\ forall i, n <= i -> bit ws i = false.
+Proof. intros n Hn ws R. exact (reachable_wf n Hn ws R). Qed.
+Print Assumptions C18_bitset_padding_zero.
+
+(* no word index >= ceil(N/64) is read or written, for ANY shift amount (the model returns UB for
+   every such access, and for the size_t wrap of buffer_size - wshift - 1) *)
+Theorem C18_bitset_in_bounds : forall (n : N) ws (p : N), 1 <= n -> wf n ws ->
+  shl n ws p <> UB /\ shr n ws p <> UB.
+Proof. intros n ws p Hn Hwf. exact (shifts_in_bounds n ws p Hn Hwf). Qed.
+Print Assumptions C18_bitset_in_bounds.
+
+Example C18_bitset_nonvacuous :
+  (* bitset<70>: 0xFFFF...F constructed, shifted left by 9 and right by 200 *)
+  exists ws, ctor_val 70 18446744073709551615 = Ok ws /\ reachable 70 ws /\
+    apply_op 70 ws (BShl 9) = Ok [18446744073709551104; 63] /\
+    apply_op 70 ws (BShr 200) = Ok [0; 0] /\ count ws = Ok 64.
+Proof.
+  eexists. split; [vm_compute; reflexivity|]. split.
+  - eapply R_val; [|vm_compute; reflexivity]. reflexivity.
+  - vm_compute. auto.
+Qed.
+
+(* ================================================================================================
+   mt19937: for every seed and every output index, output i is the tempered x_{i+624}, where x is the
+   published recurrence with the published seeding.
+   ================================================================================================ *)
+Theorem C18_mt_recurrence : forall (s : N) (i : nat),
+  nth i (mt_outputs (S i) (mt_seed s)) 0 = temper (mt_x s (i + 624)) /\
+  mt_x s (i + 624) = N.lxor (mt_x s (i + 397)) (twist (mt_x s i) (mt_x s (i + 1))) /\
+  (forall j, (j < 624)%nat -> mt_x s j = seed_x s j) /\
+  seed_x s 0 = s mod 2 ^ 32 /\
+  (forall j, seed_x s (S j) =
+     (1812433253 * N.lxor (seed_x s j) (seed_x s j / 2 ^ 30) + N.of_nat (S j)) mod 2 ^ 32).
+Proof. exact mt_recurrence_all. Qed.
+Print Assumptions C18_mt_recurrence.
+Example C18_mt_nonvacuous :
+  (* first output and output 9999 of the default seed: the values required by the C++ standard *)
+  hd 0 (mt_outputs 1 (mt_seed 5489)) = 3499211612 /\ nth 9999 (mt_outputs 10000 (mt_seed 5489)) 0 = 4123659995.
+Proof. vm_compute. auto. Qed.
+
+(* ================================================================================================
+   pcg_basic32
+   ================================================================================================ *)
+Theorem C18_pcg_step : forall g : pcg,
+  (* state recurrence *)
+  pcg_next g = (mk_pcg ((pcg_state g * 6364136223846793005 + pcg_inc g) mod 2 ^ 64) (pcg_inc g),
+                pcg_output (pcg_state g)) /\
+  (* output = ror32 (((s >> 18) xor s) >> 27) (s >> 59) *)
+  (forall s, s < 2 ^ 64 ->
+     let xorshifted := (N.lxor (s / 2 ^ 18) s / 2 ^ 27) mod 2 ^ 32 in
+     let rot := s / 2 ^ 59 in
+     pcg_output s = rotr_expr xorshifted rot /\ xorshifted < 2 ^ 32 /\ rot < 32) /\
+  (* (x >> r) | (x << ((-r) & 31)) IS the rotation, for every r < 32 *)
+  (forall x r, x < 2 ^ 32 -> r < 32 ->
+     rotr_expr x r < 2 ^ 32 /\ forall i, i < 32 -> N.testbit (rotr_expr x r) i = N.testbit x ((i + r) mod 32)).
+Proof. exact pcg_step_all. Qed.
+Print Assumptions C18_pcg_step.
+Example C18_pcg_nonvacuous :
+  (* the published pcg32 demo vector: seed 42, sequence 54 *)
+  let g0 := pcg_seed 42 54 in
+  map (fun k => pcg_out k g0) [0; 1; 2; 3; 4; 5]%nat =
+  [2707161783; 2068313097; 3122475824; 2211639955; 3215226955; 3421331566].
+Proof. vm_compute. reflexivity. Qed.
+
+(* bounded draw: the value is below the bound, it is r mod bound for the first output r that reaches
+   the threshold, and the threshold computed as -bound % bound in uint32 is 2^32 mod bound.
+   FULL STATEMENT NOT PROVED (hence C18_pcg_bounded_terminates_partial below): "for every seed there
+   is a fuel for which the draw returns" needs the full-period theorem of the 64-bit LCG. *)
+Theorem C18_pcg_bounded : forall fuel g bound g' v, 0 < bound < 2 ^ 32 ->
+  pcg_threshold bound = 2 ^ 32 mod bound /\
+  pcg_bounded fuel g bound <> DDivZero /\
+  (pcg_bounded fuel g bound = DOk g' v ->
+     v < bound /\
+     exists k, (k < fuel)%nat /\ (forall j, (j < k)%nat -> pcg_out j g < 2 ^ 32 mod bound) /\
+               2 ^ 32 mod bound <= pcg_out k g /\ v = pcg_out k g mod bound /\ g' = pcg_iter (S k) g).
+Proof. exact pcg_bounded_all. Qed.
+Print Assumptions C18_pcg_bounded.
+(* what IS proved about termination: the loop returns as soon as one of the first [fuel] outputs
+   reaches the threshold (so OutOfFuel means: all of them were below 2^32 mod bound < bound). *)
+Theorem C18_pcg_bounded_terminates_partial : forall fuel g bound k, 0 < bound < 2 ^ 32 ->
+  (k < fuel)%nat -> 2 ^ 32 mod bound <= pcg_out k g -> exists g' v, pcg_bounded fuel g bound = DOk g' v.
+Proof. exact pcg_bounded_terminates_if. Qed.
+Print Assumptions C18_pcg_bounded_terminates_partial.
+Example C18_pcg_bounded_nonvacuous :
+  exists g' v, pcg_bounded 100 (pcg_seed 42 54) 2147483649 = DOk g' v /\ v < 2147483649.
+Proof. eexists. eexists. split; [vm_compute; reflexivity|]. reflexivity. Qed.
+
+(* ================================================================================================
+   insertion_sort: for comp asymmetric and transitive the result is a permutation of the input in
+   which no earlier element is comp-below a later one.
+   ================================================================================================ *)
+Local Close Scope N_scope.
 Theorem C18_sort : forall (A : Type) (comp : A -> A -> bool),
   (forall a b, comp a b = true -> comp b a = false) ->
   (forall a b c, comp a b = true -> comp b c = true -> comp a c = true) ->
@@ -17,3 +142,22 @@ Print Assumptions C18_sort.
 Example C18_sort_nonvacuous :
   insertion_sort (fun a b => Nat.ltb (a / 16) (b / 16)) [16; 0; 17; 1; 32] = [32; 17; 16; 1; 0].
 Proof. vm_compute. reflexivity. Qed.
+
+(* the literal reading of the double loop (indices, nth/upd swaps over the whole list) is the same function *)
+Theorem C18_sort_index_version : forall (A : Type) (comp : A -> A -> bool) (d : A) (l : list A),
+  isort_idx comp d l = insertion_sort comp l.
+Proof. intros A comp d l. exact (isort_idx_eq comp d l). Qed.
+Print Assumptions C18_sort_index_version.
+Example C18_sort_index_nonvacuous :
+  isort_idx (fun a b => Nat.ltb (a / 16) (b / 16)) 0 [16; 0; 17; 1; 32] = [32; 17; 16; 1; 0].
+Proof. vm_compute. reflexivity. Qed.
+
+(* array: the list identities (the clause is carried by the correspondence with std::array) *)
+Theorem C18_array_identities : forall (A : Type) (l : list A) (d : A), l <> [] ->
+  arr_back l = Some (last l d) /\ arr_front l = Some (hd d l) /\
+  (forall i, i < length l -> arr_index l i = Some (nth i l d)) /\
+  (forall ls : list (list A), arr_concat ls = concat ls).
+Proof. exact array_identities_all. Qed.
+Print Assumptions C18_array_identities.
+Example C18_array_nonvacuous : arr_back [10; 20; 30] = Some 30 /\ arr_concat [[1]; [2; 3]; []; [4]] = [1; 2; 3; 4].
+Proof. split; reflexivity. Qed.
